@@ -226,8 +226,15 @@ func (r *rewriter) selectStmt(sel *ast.SelectStmt) ast.Stmt {
 	return sw
 }
 
+// extraSrc maps repository files to substituted sources (VINSTR_EXTRA): a file that is both
+// substituted and instrumented is instrumented FROM its substitute.
+var extraSrc = map[string]string{}
+
 func process(repo, rel string, rewriteChans bool) ([]byte, bool) {
 	path := filepath.Join(repo, rel)
+	if alt, ok := extraSrc[path]; ok {
+		path = alt
+	}
 	f, err := parser.ParseFile(fset, path, nil, parser.ParseComments)
 	if err != nil {
 		die("parse %s: %v", rel, err)
@@ -303,6 +310,11 @@ func main() {
 	}
 	repo, shim, out := os.Args[1], os.Args[2], os.Args[3]
 	os.MkdirAll(out, 0o755)
+	if extra := os.Getenv("VINSTR_EXTRA"); extra != "" {
+		if err := json.Unmarshal([]byte(extra), &extraSrc); err != nil {
+			die("VINSTR_EXTRA: %v", err)
+		}
+	}
 	replace := map[string]string{}
 	n := 0
 	for _, dir := range syncDirs {
